@@ -237,10 +237,8 @@ func copyRegularFile(src, dst string, perm os.FileMode) error {
 	defer srcFile.Close()
 
 	dstFile, err := os.OpenFile(dst, os.O_RDWR|os.O_CREATE|os.O_TRUNC, perm)
-	if os.IsNotExist(err) {
-		return NewHTTPError(http.StatusConflict, err)
-	} else if err != nil {
-		return errFromOS(err)
+	if err != nil {
+		return errFromMissingParent(err)
 	}
 	defer dstFile.Close()
 
@@ -276,9 +274,6 @@ func (fs LocalFileSystem) Copy(ctx context.Context, src, dst string, options *Co
 		return false, err
 	}
 
-	// TODO: "Note that an infinite-depth COPY of /A/ into /A/B/ could lead to
-	// infinite recursion if not handled correctly"
-
 	if _, err := os.Stat(srcPath); err != nil {
 		return false, errFromOS(err)
 	}
@@ -288,7 +283,7 @@ func (fs LocalFileSystem) Copy(ctx context.Context, src, dst string, options *Co
 
 	if _, err := os.Stat(dstPath); err != nil {
 		if !os.IsNotExist(err) {
-			return false, errFromOS(err)
+			return false, errFromMissingParent(err)
 		}
 		created = true
 	} else {
@@ -302,7 +297,7 @@ func (fs LocalFileSystem) Copy(ctx context.Context, src, dst string, options *Co
 
 	err = filepath.Walk(srcPath, func(p string, fi os.FileInfo, err error) error {
 		if err != nil {
-			return err
+			return errFromOS(err)
 		}
 
 		rel, err := filepath.Rel(srcPath, p)
@@ -314,7 +309,7 @@ func (fs LocalFileSystem) Copy(ctx context.Context, src, dst string, options *Co
 
 		if fi.IsDir() {
 			if err := os.Mkdir(target, perm); err != nil {
-				return errFromOS(err)
+				return errFromMissingParent(err)
 			}
 		} else {
 			if err := copyRegularFile(p, target, perm); err != nil {
@@ -328,7 +323,7 @@ func (fs LocalFileSystem) Copy(ctx context.Context, src, dst string, options *Co
 		return nil
 	})
 	if err != nil {
-		return false, errFromOS(err)
+		return false, err
 	}
 
 	return created, nil
@@ -353,7 +348,7 @@ func (fs LocalFileSystem) Move(ctx context.Context, src, dst string, options *Mo
 
 	if _, err := os.Stat(dstPath); err != nil {
 		if !os.IsNotExist(err) {
-			return false, errFromOS(err)
+			return false, errFromMissingParent(err)
 		}
 		created = true
 	} else {
@@ -366,7 +361,8 @@ func (fs LocalFileSystem) Move(ctx context.Context, src, dst string, options *Mo
 	}
 
 	if err := os.Rename(srcPath, dstPath); err != nil {
-		return false, errFromOS(err)
+		// the source exists: ENOENT means the destination's parent is missing
+		return false, errFromMissingParent(err)
 	}
 
 	return created, nil
